@@ -320,17 +320,24 @@ var c12PairAlphabet = []c12Op{
 	{Kind: "rename-pool", Name: "q", NewName: "x"},
 	{Kind: "drop-pool", Name: "q"},
 	{Kind: "create-branch", Name: "b2"},
+	{Kind: "rename-pool", Name: "q", NewName: "y"},
+}
+
+func c12PoolTableOp(op c12Op) bool {
+	return op.Kind == "create-pool" || op.Kind == "rename-pool" || op.Kind == "drop-pool"
 }
 
 func runC12(c *rt.Ctx) {
-	c.Note("rule", "case = 2–4 clients (each its own lake handle, i.e. its own caches, on one shared storage) issuing 1–3 operations each under the operation-level scheduler; (i) exhaustive single-preemption: for ordered pairs (A,B) of operations from an 11-operation alphabet, every schedule 'A runs k storage operations, B runs to completion, A finishes' for every k (quick: a seeded subset of the pairs); (ii) random segment schedules with 2–4 preemptions for 3–4 clients; (iii) free-running clients on one shared lake handle (the service's situation) under the race detector; storage with atomic puts and with file semantics; evaluations = schedules executed; non-trivial = schedule in which the second client ran while the first had performed some but not all of its storage operations; distinct by the hash of the executed (client, op kind, path class) sequence")
+	c.Note("rule", "case = 2–4 clients (each its own lake handle, i.e. its own caches, on one shared storage) issuing 1–3 operations each under the operation-level scheduler; (i) exhaustive single-preemption: for ordered pairs (A,B) of operations from a 12-operation alphabet, every schedule 'A runs k storage operations, B runs to completion, A finishes' for every k (quick: all 16 pairs of pool-table operations and a seeded eighth of the others); (ii) random segment schedules with 2–4 preemptions for 3–4 clients; (iii) free-running clients on one shared lake handle (the service's situation) under the race detector; storage with atomic puts and with file semantics; evaluations = schedules executed; non-trivial = schedule in which the second client ran while the first had performed some but not all of its storage operations; distinct by the hash of the executed (client, op kind, path class) sequence")
 	c.Note("granularity", "interleavings are explored at storage-operation granularity (every Get/Put/PutIfNotExists/Delete…; on file semantics also every Write); preemptions inside an in-memory critical section are only produced by the free-running stress part")
 	c.Note("assumptions", "clients in different processes share nothing but storage (separate lake.Root per client)\nan operation that fails because the journal's bounded retry loop was starved is a reported failure and is checked as such (no trace)\nporcupine v1.3.0 checks the pool-name table history against a sequential map model")
 	idx := 0
 	for ai := range c12PairAlphabet {
 		for bi := range c12PairAlphabet {
 			ai, bi := ai, bi
-			if c.Quick() && int(rt.NewRand(uint64(ai*131+bi)+c.Seed*7).Uint64()%8) != 0 {
+			// quick: every pair of pool-table operations, and a seeded eighth of the rest
+			tablePair := c12PoolTableOp(c12PairAlphabet[ai]) && c12PoolTableOp(c12PairAlphabet[bi])
+			if c.Quick() && !tablePair && int(rt.NewRand(uint64(ai*131+bi)+c.Seed*7).Uint64()%8) != 0 {
 				idx++
 				continue
 			}
